@@ -63,7 +63,7 @@ impl Property for C16 {
         proptest::collection::vec(any::<u16>(), 0..(max_ops * 8 + 8))
             .prop_map(move |genes| {
                 let mut g = Genes::new(genes);
-                let cfg = HistCfg { max_ops, safe_strings: true, w_struct: 2, w_attr: 0, w_chardata: 12, w_create: 3, huge_offsets: true, max_doc: 5, w_compound: 3 };
+                let cfg = HistCfg { max_ops, safe_strings: true, w_struct: 2, w_attr: 0, w_chardata: 12, w_create: 3, huge_offsets: true, max_doc: 5, w_compound: 3, seams: true };
                 hist::gen_history(&mut g, &cfg)
             })
             .boxed()
@@ -244,6 +244,20 @@ impl Property for C16 {
                         // admissible reading for a parentless node; data must be unchanged
                         if data_of(&node).as_deref() != Some(cur_s.as_str()) {
                             fail!("c16.split_text.failed-but-changed".to_string(), format!("step {} {}: refused split changed the data to {:?}", step, op, data_of(&node)));
+                        }
+                        continue;
+                    }
+                    // content that the node kind cannot hold in a serialisable document (']]>', markup characters, '--' in
+                    // a comment) may be refused — but then nothing may have changed
+                    let would_be: String = new_model.iter().collect();
+                    let unstorable = would_be.contains("]]>") || would_be.contains('<') || would_be.contains('&') || (matches!(node, XmlNode::Comment(_)) && (would_be.contains("--") || would_be.ends_with('-')));
+                    if unstorable && !e.contains("IndexSizeErr") {
+                        obs.label("refused:unstorable-content");
+                        if data_of(&node).as_deref() != Some(cur_s.as_str()) {
+                            fail!(format!("c16.{}.refused-but-changed", kind), format!("step {} {} on {:?}: the call is refused ({}) but the data is now {:?}", step, op, cur_s, e, data_of(&node)));
+                        }
+                        if len_of(&node) != Some(len) {
+                            fail!(format!("c16.{}.refused-but-changed", kind), format!("step {} {} on {:?}: the call is refused ({}) but the length is now {:?}", step, op, cur_s, e, len_of(&node)));
                         }
                         continue;
                     }
